@@ -9,14 +9,14 @@ Extraction "model.ml"
   Byte.of_bits Byte.to_bits
   toFileMode fromFileMode toChmodPerm isRegular mode_string parse_mode_string wire_normal valid_wire_type
   os_mode fileStat_flags fileStat_owner ls_owner setstat_ops run_until_fail
-  encA encB decA decB_request decB_response recv_frame recv_frame_B attrs_dec attrs_alloc_cells decB_name_alloc_cells guardB
+  encA encB decA decB_request decB_initversion decB_response recv_frame recv_frame_B attrs_dec attrs_alloc_cells decB_name_alloc_cells guardB
   rawify wf_packet ptype
   client_safe parse_status_only parse_handle parse_attrs parse_name1 parse_readdir parse_statvfs parse_data read_chunk path_base
   gate ro_fixed may_mutate effects reading_request
   supported run_set recv_version has_extension ext_reaction sync_sends version_reply
-  readAt writeTo writeAt readFromSeq readFromConc readFrom_uses_conc readfrom_fixed writeto_fixed seek pattern chunks
+  readAt writeTo writeToS writeAt readFromSeq readFromConc readFromConcArg readFrom_uses_conc readfrom_fixed writeto_fixed seek pattern chunks
   clean clean_with_base clean_path to_local_path status_code perm_fixed normalise dispatch realpath_default
-  client_list scripted filelist_step
+  client_list scripted paged filelist_step
   lin_check serve serve_fixed hstep h0
   toPflags served_osflags frun accept_raw quiescent emitted arrived caccept_trace areplay_trace all_used available scan ids_from
   FsTree.c_remove FsTree.c_mkdirall FsTree.c_removeall FsTree.spec_mkdirall FsTree.spec_removeall Reply.read_reply Reply.write_reply Reply.list_reply Reply.stat_reply Reply.readlink_reply Shutdown.shrun Shutdown.sh0 Shutdown.eager_schedule Shutdown.after_return OffsetLock.layout_ok FileLock.wire_scan FsTree.p_remove FsTree.p_rmdir FsTree.p_mkdir FsTree.lstat FsTree.stat FsTreeP.cnt.
